@@ -32,6 +32,8 @@ func checkC14(c *Ctx) (string, error) {
 	checkMergeableLinkage(c, sp)
 	checkOwnershipSeparator(c, sp)
 	checkLinknameAfterLoad(c, cp)
+	checkLocalTypePosKept(c, cp)
+	checkDescriptorBuildOrder(c, sp)
 	rcfgs := []LoadCfg{defaultCfg}
 	if c.Tier == "thorough" {
 		rcfgs = append(rcfgs, LoadCfg{GOOS: "darwin", GOARCH: "arm64"}, LoadCfg{GOOS: "linux", GOARCH: "arm64"}, LoadCfg{GOOS: "linux", GOARCH: "amd64", Tags: []string{"nogc"}})
